@@ -69,8 +69,8 @@ def prefixPost (pre : Path) (c c' : Call) (r : Ret) : Ret :=
   match c, r with
   | .readlink _, .str t => .str (PrefixFS.readlinkPost pre t)
   | _, .handle h => .handle { h with name := PrefixFS.reportedName pre c'.primaryPath h.name }
-  | .stat _, .info i => .info { i with name := PrefixFS.reportedName pre c'.primaryPath i.name }
-  | .lstat _, .info i => .info { i with name := PrefixFS.reportedName pre c'.primaryPath i.name }
+  | .stat _, .info i => .info { i with name := PrefixFS.reportedInfoName pre c'.primaryPath i.name }
+  | .lstat _, .info i => .info { i with name := PrefixFS.reportedInfoName pre c'.primaryPath i.name }
   | _, r => r
 
 def layer {σ} (tr : Call → Except Err Call) (post : Call → Call → Ret → Ret) (inner : FSI σ) : FSI σ :=
@@ -90,8 +90,8 @@ def volumePost (c c' : Call) (r : Ret) : Ret :=
   match c, r with
   | .readlink _, .str t => .str (VolumeFS.readlinkPost t)
   | _, .handle h => .handle { h with name := VolumeFS.reportedName c'.primaryPath h.name }
-  | .stat _, .info i => .info { i with name := VolumeFS.reportedName c'.primaryPath i.name }
-  | .lstat _, .info i => .info { i with name := VolumeFS.reportedName c'.primaryPath i.name }
+  | .stat _, .info i => .info { i with name := VolumeFS.reportedInfoName c'.primaryPath i.name }
+  | .lstat _, .info i => .info { i with name := VolumeFS.reportedInfoName c'.primaryPath i.name }
   | _, r => r
 
 def volumeFS {σ} (inner : FSI σ) : FSI σ := layer VolumeFS.translate volumePost inner
